@@ -25,17 +25,24 @@ def make_content(resource, version, size):
     return head + body + tail
 
 
+# the second post-processor / validator a run may register: "pp" / "v" are PREFIXES of these names and the rest holds
+# characters outside [A-Za-z0-9_] - legal in a directive option (anything but ';', '=', ':' is), cut off by a parser
+# that tokenises with \w+ (seeded change s194)
+PP2_NAME = "pp-v2.1"
+V2_NAME = "v.strict-2"
+
+
 def postprocess_bytes(data, name="pp"):
     """what the post-processor registered under `name` makes of a download: "pp" and "pp2" are two different
     user functions (same output length), so that a cache which runs the wrong one of several registered
     functions produces wrong content"""
-    return (b"Q2(" if name == "pp2" else b"PP(") + data[::-1] + b")"
+    return (b"Q2(" if name == PP2_NAME else b"PP(") + data[::-1] + b")"
 
 
 def unpostprocess(data):
     """(raw bytes, name of the post-processor) for post-processed content, (data, None) otherwise"""
     if data.endswith(b")") and data[:3] in (b"PP(", b"Q2("):
-        return data[3:-1][::-1], ("pp2" if data[:3] == b"Q2(" else "pp")
+        return data[3:-1][::-1], (PP2_NAME if data[:3] == b"Q2(" else "pp")
     return data, None
 
 
